@@ -5,23 +5,23 @@ T = {
  "C01": ("E5", "bounded-exhaustive crash exploration of the real parser+screen in isolated worker processes (all words/byte strings/chunkings up to a bound, wide parameter sweeps, BFS over API sequences)", "7 C01"),
  "C02": ("E1+E3", "bounded-exhaustive enumeration of streams x all partitions into chunks; implementation-vs-implementation state differential", "7 C02"),
  "C03": ("E1", "explicit-state reference recogniser; all words over the grammar-class alphabet up to a length bound (ground-pruned beyond) replayed on the real Parser and compared event by event", "7 C03"),
- "C04": ("E2", "explicit-state exploration of the real Screen (product base states x texts, BFS with full-key dedup) refined against an executable reference model", "7 C04"),
+ "C04": ("E2", "explicit-state exploration of the real Screen (product base states x texts, every Unicode scalar value from U+0100, BFS with full-key dedup, unmerged history trees) refined against an executable reference model", "7 C04"),
  "C05": ("E2", "exhaustive enumeration of (state x movement op x parameter) per geometry on the real Screen vs closed-form reference", "7 C05"),
- "C06": ("E2", "explicit-state exploration (depth-1 product sweep + BFS over scroll histories) vs row-rotation reference model", "7 C06"),
- "C07": ("E2", "exhaustive enumeration of (state x erase op x selector) per geometry vs reference model", "7 C07"),
- "C08": ("E4", "complete parameter-space enumeration (every SGR code 0..=9999 x rendition states, pairs/triples, extended-colour forms) vs independent fold + palette", "7 C08"),
+ "C06": ("E2", "explicit-state exploration (depth-1 product sweep + BFS over scroll histories + unmerged history tree + 300-round scroll cycles judged step by step) vs row-rotation reference model", "7 C06"),
+ "C07": ("E2", "exhaustive enumeration of (state x erase op x selector) per geometry and of unmerged operation histories (trees to depth 5-8) vs reference model", "7 C07"),
+ "C08": ("E4", "complete parameter-space enumeration (every SGR code 0..=9999 x rendition states, pairs/triples, extended-colour forms) and of unmerged SGR / DECSC / DECRC / reset histories vs independent fold + palette", "7 C08"),
  "C09": ("E2", "invariant checking over all states visited by a full-alphabet depth-1 sweep and a mixed-alphabet BFS (explicit-state, full-key dedup)", "7 C09"),
- "C10": ("E2", "2-run differential over exhaustively enumerated histories (display interposed or not) + rendering recomputed from the grid", "7 C10"),
+ "C10": ("E2", "2-run differential over exhaustively enumerated histories (display interposed or not; display - [clear dirty] - op - display) + rendering recomputed from the grid", "7 C10"),
  "C11": ("E3", "all byte strings over a UTF-8 class alphabet up to a length bound x all chunkings on the real ByteParser vs std lossy decoding, checked after every chunk", "7 C11"),
  "C12": ("E4+E2", "complete enumeration of mode numbers x {private,ANSI} x {SM,RM} from representative states + BFS interleavings vs reference model", "7 C12"),
  "C13": ("E2", "explicit-state exploration (depth-1 sweep + BFS over ICH/DCH/IRM/EL/resize interleavings, full-key dedup) vs list-splice reference", "7 C13"),
  "C14": ("E2", "explicit-state exploration of save/restore histories (BFS, full-key dedup) vs stack reference model + stack frame condition on every other op", "7 C14"),
  "C15": ("E2", "model-free comparison of reset(s) with a new screen over all explored states: observable view and full state key (equal key => equal futures), bounded continuations otherwise", "7 C15"),
- "C16": ("E2", "explicit-state exploration: resize to every size from every base state + BFS over resize sequences interleaved with edits vs crop/extend reference", "7 C16"),
+ "C16": ("E2", "explicit-state exploration: resize to every size from every base state + BFS and unmerged trees over resize sequences interleaved with edits and scrolls, DECCOLM excursions followed by grows, vs crop/extend reference", "7 C16"),
  "C17": ("E2", "model-free dirty-rule check on every transition of a full-alphabet sweep and a BFS with clear_dirty as an operation", "7 C17"),
  "C18": ("E4", "complete enumeration: widths 1..=140, every stop subset on small widths x every cursor x HT/HTS/TBC, width changes, vs closed form", "7 C18"),
  "C19": ("E1", "all OSC payloads over a payload alphabet up to a length bound x codes x introducers x terminators x 2-way chunkings on a real Screen vs closed-form expectation", "7 C19"),
- "C20": ("E4", "complete enumeration of 4x256 table entries and 256 code points x tables x slots x shifts (API and 8-bit parser path) vs independently written tables", "7 C20"),
+ "C20": ("E4", "complete enumeration of 4x256 table entries and 256 code points x tables x slots x shifts (API and 8-bit parser path), every scalar value above 255, and all words of <= 5-6 charset controls through one parser, vs independently written tables", "7 C20"),
 }
 hooks_commit = subprocess.check_output(["git","-C","/repo","log","--format=%h","--grep=verif hook"]).decode().split()
 checks=[]
